@@ -534,7 +534,7 @@ func init() {
 			},
 			{
 				Name:  "random-float",
-				Count: h.Fixed(20000, 2000000),
+				Count: h.Fixed(20000, 6000000),
 				Run: func(c *h.Ctx, idx uint64, r *h.Rand) {
 					scale := math.Pow(10, float64(r.Range(-2, 4)))
 					minx, miny := r.Uniform(-1, 1)*scale, r.Uniform(-1, 1)*scale
